@@ -90,7 +90,8 @@ def nameAliases : List (List Char × List Char) := [
   ("msgs".toList, []),
   ("extendedactions".toList, "extended".toList),
   ("rawmessages".toList, "payload".toList),     -- wallet.HighloadV2Message.RawMessages  : payload
-  ("boundedqueryid".toList, "queryid".toList)]  -- wallet.HighloadV2Message.BoundedQueryID: query_id -- wallet.MessageV5.*.ExtendedActions               : extended                          -- tlb.Transaction.Msgs                     : the anonymous `^[ … ]`
+  ("boundedqueryid".toList, "queryid".toList),
+  ("feeburnnom".toList, "feeburnnum".toList)]   -- tlb.BurningConfig.FeeBurnNom           : fee_burn_num  -- wallet.HighloadV2Message.BoundedQueryID: query_id -- wallet.MessageV5.*.ExtendedActions               : extended                          -- tlb.Transaction.Msgs                     : the anonymous `^[ … ]`
 
 /-- the Go field at a position carries the name the schema gives to the field at that position -/
 def nameAgrees (goName schemaName : String) : Bool :=
@@ -610,6 +611,17 @@ def Transaction : SType := .seq
   (.cons "total_fees" (.named "CurrencyCollection") (.cons "state_update" (.ref (.named "HashUpdate"))
   (.cons "description" (.ref (.named "TransactionDescr")) .nil)))))))))))))
 
+/-- burning_config#01 blackhole_addr:(Maybe bits256) fee_burn_num:# fee_burn_denom:#
+      { fee_burn_num <= fee_burn_denom } { fee_burn_denom >= 1 } = BurningConfig;   (config parameter 5) -/
+def BurningConfig : SType := .seq
+  (.cons "magic" (.tag (tagBits "#01")) (.cons "blackhole_addr" (.maybe (.bits 256))
+  (.cons "fee_burn_num" (.nat 32) (.cons "fee_burn_denom" (.nat 32) .nil))))
+
+/-- msg_metadata#0 depth:uint32 initiator_addr:MsgAddressInt initiator_lt:uint64 = MsgMetadata; -/
+def MsgMetadata : SType := .seq
+  (.cons "magic" (.tag (tagBits "#0")) (.cons "depth" (.nat 32) (.cons "initiator_addr" .msgAddress
+  (.cons "initiator_lt" (.nat 64) .nil))))
+
 /-! ### wallet v5: the list of out-actions -/
 
 /-- OutList n of `action_send_msg` (see `specOutList`) -/
@@ -673,7 +685,8 @@ def senvList : List (String × SType) := [
   ("TrActionPhase", TrActionPhase), ("TrBouncePhase", TrBouncePhase), ("SplitMergeInfo", SplitMergeInfo),
   ("TransactionDescr", TransactionDescr), ("HashUpdate", HashUpdate), ("Transaction", Transaction),
   ("OutList", OutList), ("W5ExtendedAction", W5ExtendedAction), ("W5ExtendedActions", W5ExtendedActions),
-  ("WalletV5R1Body", WalletV5R1Body), ("HighloadV2Body", HighloadV2Body)]
+  ("WalletV5R1Body", WalletV5R1Body), ("HighloadV2Body", HighloadV2Body), ("BurningConfig", BurningConfig),
+  ("MsgMetadata", MsgMetadata)]
 
 def senv : SEnv := fun n => (senvList.find? (·.1 == n)).map (·.2)
 
